@@ -89,10 +89,10 @@ def task_source(kind, flag=False):
         'json': "return {} if _S.get('empty') else {'v': [1, 2, 3], 's': 'x' * 50, 'run': _S['run']}",
         'numpy': "return np.arange(0 if _S.get('empty') else 40, dtype='int64') + _S['run']",
         'pandas': "return pd.DataFrame({'a': list(range(20)), 'r': [_S['run']] * 20})",
-        'generated': "return ({'i': i, 'run': _S['run'], **({'s\\u2029': 'a\\u2028b\\x85c\\x0bd\\x0ce\\x1cf\\x1e'} if _S.get('special') else {})} for i in range(0 if _S.get('empty') else 230 if _S.get('big') else 6))",
+        'generated': "return ({'i': i, 'run': _S['run'], **({'s\\u2029': 'a\\u2028b\\x85c\\x0bd\\x0ce\\x1cf\\x1e'} if _S.get('special') else {})} for i in range(0 if _S.get('empty') else 2300 if _S.get('big') == 'huge' else 230 if _S.get('big') else 6))",
         'generated_lazy': "d = self.get_data_object(); d.set_value([{'i': i, 'run': _S['run'], **({'s\\u2029': 'a\\u2028b\\x85c\\x0bd\\x0ce\\x1cf\\x1e'} if _S.get('special') else {})} for i in range(0 if _S.get('empty') else 6)]); return d",
         'listnumpy': "return [np.arange(5) + i + _S['run'] for i in range(0 if _S.get('empty') else 12 if _S.get('big') else 3)]",
-        'dir': "d = self.get_data_object()\n        (d.dir / 'a.txt').write_text('A' * 30 + str(_S['run']))\n        if _S.get('extra'):\n            (d.dir / 'extra.txt').write_text('E')\n        if _S['fault'] == 'raise_midway':\n            raise RuntimeError('boom midway')\n        (d.dir / 'sub').mkdir()\n        (d.dir / 'sub' / 'b.txt').write_text('B' * 30)\n        return d",
+        'dir': "d = self.get_data_object()\n        (d.dir / 'a.txt').write_text('A' * 30 + str(_S['run']))\n        if _S.get('selfquery'):\n            _ = (self.has_data, self.data_path, self.run_info, self.log)\n        if _S.get('extra'):\n            (d.dir / 'extra.txt').write_text('E')\n        if _S['fault'] == 'raise_midway':\n            raise RuntimeError('boom midway')\n        (d.dir / 'sub').mkdir()\n        (d.dir / 'sub' / 'b.txt').write_text('B' * 30)\n        return d",
         'continues': "d = self.get_data_object()\n        (d.dir / 'part1').write_text('P1-' + str(_S['run']))\n        if _S['fault'] == 'raise_midway':\n            raise RuntimeError('boom midway')\n        (d.dir / 'part2').write_text('P2')\n        d.finished()\n        return d",
     }[kind]
     extra = '        data_class = ListOfNumpyData\n' if kind == 'listnumpy' else ''
@@ -156,6 +156,10 @@ class Faults(Suite):
         # functions take for line ends (U+2028, U+2029, U+0085, VT, FF, FS..RS): complete, or not there
         out += [dict(kind=k, forced=f, fault='crash', leftover='none', big=True) for k in ('listnumpy', 'generated') for f in (False, True)]
         out += [dict(kind=k, forced=False, fault=ft, leftover='none', special=True) for k in ('generated', 'generated_lazy') for ft in ('crash', 'raise')]
+        # a directory task that asks about itself in the middle of run (a progress line with self.has_data, self.log ...)
+        out += [dict(kind='dir', forced=f, fault=ft, leftover='none', selfquery=True) for f in (False, True) for ft in ('crash', 'raise_midway')]
+        # thousands of rows
+        out += [dict(kind='generated', forced=False, fault='crash', leftover='none', big='huge')]
         # a task that says `ignore_return_type_mismatch` and persists its result: a value of another type is refused, nothing is stored
         out += [dict(kind=k, forced=f, fault=ft, flag=True) for k in ('json', 'numpy', 'pandas') for f in (False, True)
                 for ft in ('mistyped', 'mistyped_iterable') if not (ft == 'mistyped_iterable' and k == 'json')]
@@ -167,7 +171,7 @@ class Faults(Suite):
         old = os.getcwd()
         try:
             os.chdir(tmp)
-            state = dict(run=0, runs=0, fault=None, bad=None, big=case.get('big'), special=case.get('special'), flag=case.get('flag'))
+            state = dict(run=0, runs=0, fault=None, bad=None, big=case.get('big'), special=case.get('special'), flag=case.get('flag'), selfquery=case.get('selfquery'))
             m = make_module(kind, state)
 
             def first():
@@ -325,6 +329,11 @@ class Faults(Suite):
             return f'harness could not set the scenario up: {obs["setup_error"]}'
         refs = obs['refs']
         complete = [refs[1], refs[2], refs[3]]
+        # what an undisturbed run leaves in a directory result, said here and not taken from the implementation
+        if case['kind'] == 'dir':
+            for n in (1, 2, 3):
+                if not (isinstance(refs[n], dict) and refs[n].get('a.txt') == 'A' * 30 + str(n) and refs[n].get('sub/b.txt') == 'B' * 30):
+                    return f'{case}: an undisturbed run number {n} of the directory task yields {json.dumps(refs[n])[:200]}; it wrote a.txt and sub/b.txt'
         where0 = f'{case["kind"]}, {"forced recomputation" if case["forced"] else "first computation"}, {case["fault"]}'
         if case['fault'] != 'crash':
             out = obs['outcome']
